@@ -443,8 +443,7 @@ class BuiltinMixin:
             if isinstance(parts, SList) and parts.ety is TStr and isinstance(s, str) and s == " ":
                 # " ".join(tokens): named by a ghost function of the token list; assumed str algebra (audited): the
                 # whitespace split of the joined text gives the tokens back (tokens are non-empty and whitespace free)
-                from .values import JOIN_SP
-                r = JOIN_SP(parts.a, parts.n)
+                r = z3.String(fresh_name("joined"))     # some text whose whitespace tokens are exactly the list
                 i = z3.Int(fresh_name("jn"))
                 st.pc = st.pc + (WS_LEN(r) == parts.n, z3.ForAll([i], z3.Implies(z3.And(0 <= i, i < parts.n), WS_ARR(r)[i] == parts.a[i])))
                 return SV(TStr, r)
@@ -452,7 +451,7 @@ class BuiltinMixin:
         if name == "split":
             if not args and not kwargs:
                 # whitespace split: named by ghost functions of the text (tokens are non-empty, whitespace free)
-                self.assume_here(st, WS_LEN(t) >= 0)
+                self.assume_here(st, z3.And(WS_LEN(t) >= 0, WS_LEN(z3.StringVal("")) == 0))
                 return SList(TStr, WS_LEN(t), WS_ARR(t))
             return self.str_split(s, args, kwargs, st)
         if name == "__hash__":
@@ -565,6 +564,8 @@ class BuiltinMixin:
             j = z3.Int(fresh_name("m"))
             if name == "append":
                 return SList(L.ety, L.n + 1, z3.Store(L.a, L.n, to_term(args[0])))
+            if name == "extend" and isinstance(recv, list) and not recv and isinstance(args[0], SList):
+                return args[0]
             if name == "extend":
                 R = self.list_concat(L, args[0])
                 B = self.as_slist(args[0], L.ety)
